@@ -218,7 +218,7 @@ def run(ck, F, tier):
     rule_d(ck, F)
     # shared clauses, re-run on this tree
     s11 = Scoped(ck, 'C11.')
-    c11.a_formula(s11, F); c11.b_no_overflow(s11, F); c11.c_intradc(s11, F); c11.quant_update_table(s11, F)
+    c11.a_formula(s11, F); c11.b_no_overflow(s11, F); c11.c_intradc(s11, F); c11.quant_update_table(s11, F); c11.p_zigzag_cursor(s11, F)
     s10 = Scoped(ck, 'C10.')
     c10.rule_a(s10, F); c10.rule_b(s10, F); c10.rule_c(s10, F); c10.rule_e(s10, F)
     # the bits of an intra macroblock are attributed to the right syntax elements (tables of 5.3 / 5.4)
